@@ -271,6 +271,12 @@ func patchDelta(dst *bytes.Buffer, src, delta []byte) error {
 		return ErrInvalidDelta
 	}
 
+	// The source size header must not consume the whole delta: the
+	// target size header is mandatory (DecodeLEB128 yields 0 on empty input).
+	if len(delta) == 0 {
+		return ErrInvalidDelta
+	}
+
 	targetSz, delta, err := packutil.DecodeLEB128(delta)
 	if err != nil {
 		return fmt.Errorf("%w: %w", ErrInvalidDelta, err)
